@@ -277,6 +277,13 @@ def make_universe(r: random.Random, qa: list, shard: int, nsessions: int, nbodie
 
     A fresh child costs a fork (expensive), a message in a sequence costs microseconds: few unique messages, long histories."""
     names = sorted(KINDS)
+    flip = {'ap': 'noap', 'noap': 'ap', 'enh': 'noenh', 'noenh': 'enh', 'ibgp': 'ebgp', 'ebgp': 'ibgp', 'aigp': 'noaigp', 'noaigp': 'aigp'}
+
+    def twin(name: str, dim: int) -> str:
+        parts = name.split('/')
+        parts[dim] = flip[parts[dim]]
+        return '/'.join(parts)
+
     first = r.choice(names)
     other = r.choice([n for n in names if width(n) != width(first)])
     chosen = [first, other]
@@ -284,13 +291,9 @@ def make_universe(r: random.Random, qa: list, shard: int, nsessions: int, nbodie
     if nsessions >= 3:
         # a same-width twin of the first session that differs in exactly ONE other negotiated parameter (rotating over the shards)
         flipped = 1 + (shard // 2) % 4
-        twin = first.split('/')
-        twin[flipped] = {'ap': 'noap', 'noap': 'ap', 'enh': 'noenh', 'noenh': 'enh', 'ibgp': 'ebgp', 'ebgp': 'ibgp', 'aigp': 'noaigp', 'noaigp': 'aigp'}[twin[flipped]]
-        chosen.insert(1, '/'.join(twin))
-    while len(chosen) < nsessions:
-        extra = r.choice(names)
-        if extra not in chosen:
-            chosen.append(extra)
+        chosen.insert(1, twin(first, flipped))
+    if nsessions >= 4:
+        chosen.append(twin(other, 1 + (shard // 2 + 1 + shard % 3) % 4))
     groups = make_groups(r, qa, KINDS[chosen[0]])
     # group 0 (dual AS_PATH) always; the others in rotation over the shards so that every group is taken by several shards
     order = list(range(1, len(groups)))
@@ -549,6 +552,9 @@ def child_sequence(steps: list, sessions: dict, caching: bool, monitor: str, ful
     Attribute.caching = caching  # application/server.py: Attribute.caching = env.cache.attributes (default true)
     E = ENC or Encoders()
     calls: list = []
+    owner: dict = {}
+    hold: list = []
+    cur = [0]
     if monitor != 'none':
         original = AttributeCollection.unpack.__func__
 
@@ -559,6 +565,8 @@ def child_sequence(steps: list, sessions: dict, caching: bool, monitor: str, ful
                 state = 'hit'
             elif cls.cached is result:
                 state = 'miss'
+                owner[id(result)] = cur[0]  # stored by this message, even if the rest of its decoding fails
+                hold.append(result)  # keeps id() stable
             else:
                 state = 'bypass'
             calls.append((state, before))
@@ -571,9 +579,7 @@ def child_sequence(steps: list, sessions: dict, caching: bool, monitor: str, ful
     recs = []
     kept: list = []
     deeps: list = []
-    owner: dict = {}
     attr_owner: dict = {}
-    hold: list = []
     others: list = []
     mutated: list = []
     flagged: set = set()
@@ -593,6 +599,7 @@ def child_sequence(steps: list, sessions: dict, caching: bool, monitor: str, ful
     for j, step in enumerate(steps):
         nb, neg = sessions[step['k']]
         del calls[:]
+        cur[0] = j
         msg, outcome = decode(step['t'], bytes.fromhex(step['b']), neg)
         parts = {'outcome': outcome, 'routes': [], 'attributes': [], 'json': [], 'text': []}
         if msg is not None:
@@ -600,9 +607,6 @@ def child_sequence(steps: list, sessions: dict, caching: bool, monitor: str, ful
         rec: dict = {'d': {k: pdigest(parts[k]) for k in PARTS}, 'cache': calls[0][0] if calls else 'none', 'out': outcome[:4]}
         if calls and calls[0][0] == 'hit':
             rec['owner'] = owner.get(id(calls[0][1]), -1)  # the message whose decode stored the attribute set returned now
-        if monitor != 'none' and msg is not None and step['t'] == 2 and not getattr(msg, 'IS_EOR', False):
-            hold.append(msg)  # keeps id() stable
-            owner.setdefault(id(msg.data.attributes), j)
         if full == 'all' or (full == 'last' and j == len(steps) - 1):
             rec['parts'] = parts
         if monitor_full:
